@@ -3,7 +3,8 @@
 #   make -f build.mk FLAVOUR=asan|fuzz|tsan|plain
 REPO    ?= /repo
 FLAVOUR ?= asan
-B       := build/$(FLAVOUR)
+BUILD   ?= build
+B       := $(BUILD)/$(FLAVOUR)
 CC      := clang
 CXX     := clang++
 GLIB_CF := $(shell pkg-config --cflags glib-2.0)
@@ -23,7 +24,8 @@ SAN     := -O1 -fsanitize=thread
 WORLD   := world_free
 endif
 ifeq ($(FLAVOUR),plain)
-SAN     := -O0
+# uninstrumented, for Valgrind Memcheck (valgrind 3.19 cannot read clang's DWARF 5)
+SAN     := -O0 -gdwarf-4
 WORLD   := world
 endif
 ifeq ($(FLAVOUR),asanfn)
